@@ -5,6 +5,7 @@ import Cppcms.C01.ScgiRoundtrip
 import Cppcms.C01.FcgiRoundtrip
 import Cppcms.C01.HttpRoundtrip
 import Cppcms.C01.StringMap
+import Cppcms.C01.HttpAgree
 /-!
 # C01 — property theorems
 
@@ -210,6 +211,155 @@ set_option maxRecDepth 100000 in
 example : (List.range 40).all (fun i =>
     (SMap.ofAdds (fun _ => 7) ((List.range 40).map (fun j => ([j.toUInt8], [j.toUInt8, 1])))).get (fun _ => 7) [i.toUInt8]
       == some [i.toUInt8, 1]) = true := by decide
+
+/-! ## HTTP at request level, the request layer's parsers
+
+`HttpPeer` is the peer's view of an HTTP request head: method, configured script name, the path percent-encoded
+piece by piece (`PctPiece`: literal, `+`, `%XY` with either case — every choice the peer has), optional query
+string, protocol string, header fields (`HttpField`: the name as spelled, the blanks after the colon, the value).
+`HttpPeer.head cfg q` is what the peer means: the CGI environment in the order the embedded server builds it
+(canonical names — the inverse of the peer's spelling is `canonName` —, `HTTP_` prefix, `CONTENT_TYPE` /
+`CONTENT_LENGTH` unprefixed, `REQUEST_METHOD`, `REMOTE_*`, `QUERY_STRING`, `SCRIPT_NAME`, decoded `PATH_INFO`)
+and the five values the request layer asks the front-end for. -/
+
+/-- `util::urldecode` inverts every percent-encoding (upper/lower case digits, `+` or `%20` for a blank, any set
+of escaped bytes as long as `%` and `+` themselves are escaped) -/
+theorem urldecode_inverts_percent_encoding (ps : List PctPiece) (h : ∀ p ∈ ps, p.ok) :
+    urldecode (pctWire ps) = pctValue ps :=
+  urldecode_pct ps h
+
+/-- `request::parse_form_urlencoded` round trip: for every list of fields (non-empty names; `&`, `=` escaped in
+names, `&` in values; any admissible encoding) the form holds the fields the peer meant, in order -/
+theorem parse_form_urlencoded_roundtrip (fs : List FormField) (hfs : ∀ f ∈ fs, f.ok) (fuel : Nat) (hf : fs.length ≤ fuel) :
+    parseForm fuel (encForm fs) [] = (true, fs.map FormField.meant) := by
+  have := parseForm_roundtrip fs hfs fuel [] hf
+  simpa using this
+
+/-- `request::parse_cookies` round trip: every list of cookies with token names (not starting with `$`) and token
+or empty values, separated by `;` or `,` and any blanks/tabs, is delivered as the map the peer meant (first one
+wins for a repeated name) -/
+theorem parse_cookies_roundtrip (cs : List CookieItem) (hcs : ∀ c ∈ cs, c.ok) :
+    parseCookies (encCookies cs) = cookiesMeant [] cs :=
+  parseCookies_roundtrip cs hcs
+
+/-- HTTP request head through the per-line code: request line split (method / URI / protocol), every header field
+through `parse_single_header` (canonical name, blanks after the colon dropped), then `process_request` (method
+token check, `?` split, script-name match, percent-decoding of the path): exactly `HttpPeer.head`. -/
+theorem http_head_roundtrip (cfg : HttpCfg) (q : HttpPeer) (hq : q.ok cfg) :
+    ∃ r', feedLines { env := httpEnv0 cfg } q.lines = some r' ∧ r'.is11 = (q.proto == bs Gen.http11) ∧
+      ∀ ps, httpProcess cfg { r' with ps := ps } = some (q.head cfg) :=
+  Cppcms.C01.http_head_roundtrip cfg q hq { env := httpEnv0 cfg } rfl
+
+/-- **HTTP round trip** (`http_roundtrip` of DESIGN.md): a well-formed request, its header lines folded any way the
+peer likes (`HttpWire`: obs-fold with SP or HTAB anywhere a `WFLine` allows, header section within the 16 KiB
+the server accepts), followed by its body, cut into segments **anywhere**: the request layer gets exactly the
+head the peer meant and the body stream; what the application then observes is `reqOutcome` of those, the same
+function the SCGI and FastCGI round trips end in. -/
+theorem http_roundtrip (cfg : HttpCfg) (lim : Limits) (hb : 0 < lim.bufSize) (q : HttpPeer) (hq : q.ok cfg)
+    (ls : List FLine) (hw : HttpWire q ls) (body : Bytes) (hints : List Bool) (segs : Segs)
+    (hseg : segs.flatten = encFLines ls ++ body)
+    (hclose : (isApp (reqOutcome lim (q.head cfg) body).1 &&
+      httpKeep (q.head cfg) (q.proto == bs Gen.http11) (hints.headD true)) = false) :
+    httpRun lim cfg hints segs = [(reqOutcome lim (q.head cfg) body).1] :=
+  http_roundtrip_conn cfg lim hb q hq ls hw body hints segs hseg hclose
+
+/-- **HTTP keep-alive sequence**: well-formed requests sent back to back on one connection (each with its own
+folding, `Content-Length` = length of its body, answered by the application, `Connection: keep-alive` honoured),
+cut into segments anywhere — e.g. the end of one request and the start of the next in one segment — are each
+delivered exactly, in order; the connection ends when the peer closes. -/
+theorem keepalive_sequence_http (cfg : HttpCfg) (lim : Limits) (hb : 0 < lim.bufSize) (xs : List HttpItem)
+    (hok : ∀ x ∈ xs, x.ok cfg lim) (hints : List Bool) (segs : Segs) (hseg : segs.flatten = encHttpSeq xs) :
+    httpRun lim cfg hints segs = xs.map (HttpItem.outcome cfg lim) ++ [.aborted .eof false false] := by
+  apply httpRun_eq_flat cfg lim hb
+  rw [hseg]
+  apply httpFlatConn_seq cfg lim xs _ hints hok
+  have : ∀ xs : List HttpItem, xs.length ≤ (encHttpSeq xs).length := by
+    intro xs
+    induction xs with
+    | nil => simp
+    | cons x t ih =>
+      simp only [encHttpSeq, List.flatMap_cons, List.length_append, List.length_cons] at ih ⊢
+      have : 1 ≤ (HttpItem.wire x).length := by
+        simp [HttpItem.wire, encFLines]; omega
+      omega
+  have := this xs
+  omega
+
+/-- **all three front-ends agree**: the request `q` over the embedded HTTP server (any folding, any segmentation),
+and the CGI variables the embedded server derives from it (`HttpPeer.envPairs`, no name twice) sent by a gateway
+over SCGI and over FastCGI (any record framing, padding, length encoding, segmentation), with the same body, have
+the same fate: same application view or same error answer. -/
+theorem frontends_agree_http (cfg : HttpCfg) (lim : Limits) (hb : 0 < lim.bufSize) (q : HttpPeer) (hq : q.ok cfg)
+    (ls : List FLine) (hw : HttpWire q ls) (body : Bytes) (hints : List Bool)
+    (hd : Distinct (q.envPairs cfg))
+    (hclose : (isApp (reqOutcome lim (q.head cfg) body).1 &&
+      httpKeep (q.head cfg) (q.proto == bs Gen.http11) (hints.headD true)) = false)
+    (conc : Bytes) (eps : List EncPair) (fr : FcgiFraming) (hpairs : pairsOf eps = q.envPairs cfg)
+    (hwf : WFFcgi eps body fr) (hws : WFScgi (pairsOf eps))
+    (segsH segsS segsF : Segs) (hH : segsH.flatten = encFLines ls ++ body)
+    (hS : segsS.flatten = encScgi (pairsOf eps) body) (hF : segsF.flatten = encFcgi fr) :
+    httpRun lim cfg hints segsH = scgiConn lim segsS ∧ scgiConn lim segsS = fcgiRun lim conc segsF := by
+  rw [http_roundtrip cfg lim hb q hq ls hw body hints segsH hH hclose,
+    scgi_roundtrip lim hb _ body hws segsS hS, fcgi_roundtrip lim hb conc eps body fr hwf segsF hF, hpairs,
+    head_ofEnv_http cfg q hd]
+  exact ⟨rfl, rfl⟩
+
+/-- non-vacuity: `GET /s/a%2fb+c?x=1 HTTP/1.1` with `Host: h` and a folded `X-Y:` field, default configuration -/
+example : ∃ (q : HttpPeer) (ls : List FLine),
+    q.ok { software := [], serverName := [], port := [], remote := [] } ∧ HttpWire q ls ∧ ls.length = 3 := by
+  refine ⟨{ method := [71, 69, 84], script := [47, 115],
+            path := [.lit 47, .lit 97, .esc 47 false true, .lit 98, .plus, .lit 99], query := some [120, 61, 49],
+            proto := [72, 84, 84, 80, 47, 49, 46, 49],
+            fields := [{ name := [72, 111, 115, 116], ws := [32], value := [104] },
+                       { name := [88, 45, 89], ws := [], value := [49, 44, 9, 50] }] },
+          [{ head := [71, 69, 84, 32, 47, 115, 47, 97, 37, 50, 70, 98, 43, 99, 63, 120, 61, 49, 32, 72, 84, 84, 80, 47, 49, 46, 49] },
+           { head := [72, 111, 115, 116, 58, 32, 104] },
+           { head := [88, 45, 89, 58, 49, 44], tail := [[9, 50]] }], ?_, ?_, rfl⟩
+  · refine ⟨by decide, by decide, by decide, ?_, by decide, ?_, by decide, by decide, ?_⟩
+    · intro p hp
+      simp only [List.mem_cons, List.not_mem_nil, or_false] at hp
+      rcases hp with rfl | rfl | rfl | rfl | rfl | rfl <;>
+        exact ⟨by simp [PctPiece.ok], by decide, by intro b hb; cases hb <;> decide⟩
+    · intro s hs; cases hs; decide
+    · intro f hf
+      simp only [List.mem_cons, List.not_mem_nil, or_false] at hf
+      rcases hf with rfl | rfl
+      · exact ⟨by decide, by decide, by decide, Or.inr ⟨104, [], rfl, by decide, by decide, by decide⟩, by decide⟩
+      · exact ⟨by decide, by decide, by decide, Or.inr ⟨49, _, rfl, by decide, by decide, by decide⟩, by decide⟩
+  · refine ⟨?_, by decide, by decide⟩
+    intro l hl
+    simp only [List.mem_cons, List.not_mem_nil, or_false] at hl
+    rcases hl with rfl | rfl | rfl
+    · exact ⟨⟨by decide, by decide, by decide⟩, by intro p hp; cases hp⟩
+    · exact ⟨⟨by decide, by decide, by decide⟩, by intro p hp; cases hp⟩
+    · refine ⟨⟨by decide, by decide, by decide⟩, ?_⟩
+      intro p hp
+      simp only [List.mem_cons, List.not_mem_nil, or_false] at hp
+      subst hp
+      exact ⟨by decide, by decide⟩
+
+/-- non-vacuity of `FormField.ok` / `CookieItem.ok`: `a%20b=1&c=` and `sid=abc; t=` -/
+example : (∀ f ∈ [({ name := [.lit 97, .esc 32 false false, .lit 98], value := [.lit 49] } : FormField),
+                  { name := [.lit 99], value := [] }], f.ok) ∧
+    (∀ c ∈ [({ name := [115, 105, 100], value := [97, 98, 99] } : CookieItem), { name := [116], value := [] }], c.ok) := by
+  constructor
+  · intro f hf
+    simp only [List.mem_cons, List.not_mem_nil, or_false] at hf
+    rcases hf with rfl | rfl
+    · refine ⟨?_, ?_, by decide⟩
+      · intro p hp
+        simp only [List.mem_cons, List.not_mem_nil, or_false] at hp
+        rcases hp with rfl | rfl | rfl <;> exact ⟨by simp [PctPiece.ok], by decide, by decide⟩
+      · intro p hp
+        simp only [List.mem_cons, List.not_mem_nil, or_false] at hp
+        subst hp; exact ⟨by simp [PctPiece.ok], by decide⟩
+    · refine ⟨?_, (by intro p hp; cases hp), by decide⟩
+      intro p hp
+      simp only [List.mem_cons, List.not_mem_nil, or_false] at hp
+      subst hp; exact ⟨by simp [PctPiece.ok], by decide, by decide⟩
+  · intro c hc
+    simp only [List.mem_cons, List.not_mem_nil, or_false] at hc
+    rcases hc with rfl | rfl <;> exact ⟨by decide, by decide, by decide, by decide, by decide, by decide⟩
 
 /-- non-vacuity of `WFLine`: `A: x,` CRLF HTAB `y` CRLF SP `z` (a TAB fold and a SP fold) -/
 example : WFLine { head := [65, 58, 32, 120, 44], tail := [[9, 121], [32, 122]] } :=
